@@ -51,11 +51,31 @@ pub fn gap_span(i: usize) -> std::ops::Range<usize> {
 }
 
 /// An input representation under test.
-pub trait Kind<'s>: ValueInput<'s, Token = char> + Sized + 's
+pub trait Kind<'s>: Input<'s, Token = char> + Sized + 's
 where
     Self::Span: Clone + 's,
 {
     const NAME: &'static str;
+    /// Does the kind implement `ValueInput` (any/one_of/none_of/select/not/nested_delimiters)?
+    const VALUE: bool = true;
+    /// `any` / `one_of` / `none_of` / `select` leaves (need `ValueInput`)
+    fn value_leaf<ER: ErrK<'s, Self>>(g: &G) -> BP<'s, Self, ER> {
+        panic!("{:?} is not supported on input kind {}", g.op, Self::NAME)
+    }
+    fn not_of<ER: ErrK<'s, Self>>(_p: BP<'s, Self, ER>) -> BP<'s, Self, ER> {
+        panic!("not() is not supported on input kind {}", Self::NAME)
+    }
+    fn nested_of<ER: ErrK<'s, Self>>(_id: u32) -> BP<'s, Self, ER> {
+        panic!("nested_delimiters is not supported on input kind {}", Self::NAME)
+    }
+    /// Wrapper capturing span and slice of a node (C07); kinds without slices capture the span twice.
+    fn capture<ER: ErrK<'s, Self>>(id: u32, p: BP<'s, Self, ER>) -> BP<'s, Self, ER> {
+        p.map_with(move |v, e| {
+            let s = Self::sp(&e.span());
+            Val::node(id, s.0, s.1, Val::pair(Val::Span(s.0, s.1), v))
+        })
+        .boxed()
+    }
     /// Are empty spans exact (`off(p)..off(p)`) or only required to lie between the neighbours?
     const GAPPED: bool = false;
     fn make(buf: &'s Buf) -> Self;
@@ -72,12 +92,41 @@ where
     }
 }
 
+pub fn value_leaf_impl<'s, I: Kind<'s> + ValueInput<'s>, ER: ErrK<'s, I>>(g: &G) -> BP<'s, I, ER>
+where
+    I::Span: Clone + 's,
+{
+    let cs: Vec<char> = g.p.cs.clone();
+    match g.op {
+        Op::Any => any().map(Val::Tok).boxed(),
+        Op::OneOf => one_of(cs).map(Val::Tok).boxed(),
+        Op::NoneOf => none_of(cs).map(Val::Tok).boxed(),
+        Op::Select => chumsky::primitive::select(move |c: char, _e| if cs.contains(&c) { Some(Val::Tok(c)) } else { None }).boxed(),
+        other => panic!("value_leaf on {:?}", other),
+    }
+}
+
+macro_rules! value_kind {
+    () => {
+        fn value_leaf<ER: ErrK<'s, Self>>(g: &G) -> BP<'s, Self, ER> {
+            value_leaf_impl::<Self, ER>(g)
+        }
+        fn not_of<ER: ErrK<'s, Self>>(p: BP<'s, Self, ER>) -> BP<'s, Self, ER> {
+            p.not().to(Val::Unit).boxed()
+        }
+        fn nested_of<ER: ErrK<'s, Self>>(id: u32) -> BP<'s, Self, ER> {
+            nested_delimiters('(', ')', [('[', ']')], move |_| Val::Fb(id)).boxed()
+        }
+    };
+}
+
 fn simple(s: &SimpleSpan) -> Sp {
     (s.start, s.end)
 }
 
 impl<'s> Kind<'s> for &'s str {
     const NAME: &'static str = "str";
+    value_kind!();
     fn make(buf: &'s Buf) -> Self {
         &buf.text
     }
@@ -93,10 +142,19 @@ impl<'s> Kind<'s> for &'s str {
     fn base(buf: &Buf) -> usize {
         buf.text.as_ptr() as usize
     }
+    fn capture<ER: ErrK<'s, Self>>(id: u32, p: BP<'s, Self, ER>) -> BP<'s, Self, ER> {
+        p.map_with(move |v, e| {
+            let s = Self::sp(&e.span());
+            let sl: &str = e.slice();
+            Val::node(id, s.0, s.1, Val::pair(Val::Slice { s: sl.to_string(), off: sl.as_ptr() as usize }, v))
+        })
+        .boxed()
+    }
 }
 
 impl<'s> Kind<'s> for &'s [char] {
     const NAME: &'static str = "slice";
+    value_kind!();
     fn make(buf: &'s Buf) -> Self {
         &buf.chars
     }
@@ -116,11 +174,20 @@ impl<'s> Kind<'s> for &'s [char] {
     fn base(buf: &Buf) -> usize {
         buf.chars.as_ptr() as usize / std::mem::size_of::<char>()
     }
+    fn capture<ER: ErrK<'s, Self>>(id: u32, p: BP<'s, Self, ER>) -> BP<'s, Self, ER> {
+        p.map_with(move |v, e| {
+            let s = Self::sp(&e.span());
+            let sl: &[char] = e.slice();
+            Val::node(id, s.0, s.1, Val::pair(Val::Slice { s: sl.iter().collect(), off: sl.as_ptr() as usize / std::mem::size_of::<char>() }, v))
+        })
+        .boxed()
+    }
 }
 
 pub type StreamK = chumsky::input::Stream<std::vec::IntoIter<char>>;
 impl<'s> Kind<'s> for StreamK {
     const NAME: &'static str = "stream";
+    value_kind!();
     fn make(buf: &'s Buf) -> Self {
         chumsky::input::Stream::from_iter(buf.chars.clone())
     }
@@ -139,6 +206,7 @@ fn split_pair<'s>(x: &'s (char, SimpleSpan)) -> (&'s char, &'s SimpleSpan) {
 }
 impl<'s> Kind<'s> for MappedK<'s> {
     const NAME: &'static str = "mapped";
+    value_kind!();
     const GAPPED: bool = true;
     fn make(buf: &'s Buf) -> Self {
         let n = buf.n();
@@ -156,6 +224,56 @@ impl<'s> Kind<'s> for MappedK<'s> {
         } else {
             (gap_span(p).start, gap_span(q - 1).end)
         }
+    }
+}
+
+/// `Stream` of `(token, span)` pairs mapped to a spanned input (`Stream::map`), gapped spans.
+pub type SMapFn = fn((char, SimpleSpan)) -> (char, SimpleSpan);
+pub type StreamMapK = chumsky::input::MappedInput<char, SimpleSpan, chumsky::input::Stream<std::vec::IntoIter<(char, SimpleSpan)>>, SMapFn>;
+fn ident_pair(x: (char, SimpleSpan)) -> (char, SimpleSpan) {
+    x
+}
+fn gapped_off(buf: &Buf, p: usize, q: usize) -> Sp {
+    if p == q {
+        let a = if p < buf.n() { gap_span(p).start } else { 10 * buf.n() };
+        (a, a)
+    } else {
+        (gap_span(p).start, gap_span(q - 1).end)
+    }
+}
+impl<'s> Kind<'s> for StreamMapK {
+    const NAME: &'static str = "stream_map";
+    value_kind!();
+    const GAPPED: bool = true;
+    fn make(buf: &'s Buf) -> Self {
+        let n = buf.n();
+        let f: SMapFn = ident_pair;
+        chumsky::input::Stream::from_iter(buf.spanned.clone()).map(SimpleSpan::from(10 * n..10 * n), f)
+    }
+    fn sp(s: &SimpleSpan) -> Sp {
+        simple(s)
+    }
+    fn off(buf: &Buf, p: usize, q: usize) -> Sp {
+        gapped_off(buf, p, q)
+    }
+}
+
+/// `IterInput` over a cloneable iterator of `(token, span)` pairs, gapped spans.  Implements only
+/// `Input` (not `ValueInput`): leaf basis restricted to just / end / empty / custom.
+pub type IterK<'s> = chumsky::input::IterInput<std::iter::Cloned<std::slice::Iter<'s, (char, SimpleSpan)>>, SimpleSpan>;
+impl<'s> Kind<'s> for IterK<'s> {
+    const NAME: &'static str = "iter";
+    const VALUE: bool = false;
+    const GAPPED: bool = true;
+    fn make(buf: &'s Buf) -> Self {
+        let n = buf.n();
+        chumsky::input::IterInput::new(buf.spanned.iter().cloned(), SimpleSpan::from(10 * n..10 * n))
+    }
+    fn sp(s: &SimpleSpan) -> Sp {
+        simple(s)
+    }
+    fn off(buf: &Buf, p: usize, q: usize) -> Sp {
+        gapped_off(buf, p, q)
     }
 }
 
@@ -283,11 +401,13 @@ where
 pub struct Opts {
     /// wrap every node in `map_with` capturing its id and span
     pub wrap: bool,
+    /// ... and its slice (C07)
+    pub slice: bool,
 }
 
 impl Default for Opts {
     fn default() -> Self {
-        Opts { wrap: true }
+        Opts { wrap: true, slice: false }
     }
 }
 
@@ -382,7 +502,9 @@ where
 {
     let id = g.id;
     let inner = raw(g, env);
-    if env.o.wrap {
+    if env.o.wrap && env.o.slice {
+        I::capture::<ER>(id, inner)
+    } else if env.o.wrap {
         inner
             .map_with(move |v, e| {
                 let s = I::sp(&e.span());
@@ -413,10 +535,7 @@ where
             let s: String = cs.iter().collect();
             just(s).map(Val::Str).boxed()
         }
-        Any => any().map(Val::Tok).boxed(),
-        OneOf => one_of(cs).map(Val::Tok).boxed(),
-        NoneOf => none_of(cs).map(Val::Tok).boxed(),
-        Select => chumsky::primitive::select(move |c: char, _e| if cs.contains(&c) { Some(Val::Tok(c)) } else { None }).boxed(),
+        Any | OneOf | NoneOf | Select => I::value_leaf::<ER>(g),
         End => end().to(Val::Unit).boxed(),
         Empty => empty().to(Val::Unit).boxed(),
         Custom => {
@@ -426,8 +545,8 @@ where
                 let before = inp.cursor();
                 let mut s = String::new();
                 for _ in 0..want {
-                    match inp.next() {
-                        Some(c) => s.push(c),
+                    match inp.next_maybe() {
+                        Some(c) => s.push(*c),
                         None => return Err(ER::user(inp.span_since(&before), format!("C{}:short", id))),
                     }
                 }
@@ -441,11 +560,11 @@ where
         }
         Probe => custom(move |inp: &mut chumsky::input::InputRef<'s, '_, I, Ex<ER>>| {
             let c = inp.cursor();
-            let off = I::sp(&inp.span_since(&c)).0;
+            let (off, off_end) = I::sp(&inp.span_since(&c));
             let ctx = inp.ctx().clone();
             let st: &mut Insp = inp.state();
             let (n, h) = (st.n, st.h);
-            trace_push(RProbe { id, off, n, h, ctx: ctx.clone() });
+            trace_push(RProbe { id, off, off_end, n, h, ctx: ctx.clone() });
             Ok(Val::Obs { id, n, h, ctx: Box::new(ctx) })
         })
         .boxed(),
@@ -480,7 +599,7 @@ where
             n => panic!("choice array arity {}", n),
         },
         OrNot => kid!(0).or_not().map(|o| Val::Opt(o.map(Box::new))).boxed(),
-        Not => kid!(0).not().to(Val::Unit).boxed(),
+        Not => I::not_of::<ER>(kid!(0)),
         AndIs => kid!(0).and_is(kid!(1)).boxed(),
         Rewind => kid!(0).rewind().boxed(),
         Delim => kid!(0).delimited_by(kid!(1), kid!(2)).boxed(),
@@ -578,9 +697,7 @@ where
                 .boxed()
         }
         RecVia => kid!(0).recover_with(via_parser(kid!(1))).boxed(),
-        RecNested => kid!(0)
-            .recover_with(via_parser(nested_delimiters('(', ')', [('[', ']')], move |_| Val::Fb(id))))
-            .boxed(),
+        RecNested => kid!(0).recover_with(via_parser(I::nested_of::<ER>(id))).boxed(),
         RecSkipUntil => kid!(0)
             .recover_with(skip_until(kid!(1).ignored(), kid!(2).ignored(), move || Val::Fb(id)))
             .boxed(),
